@@ -171,4 +171,53 @@ def glsCandidates (cfg : Cfg) (md : Int) (t : GTree) (pat : List (Nat × Int)) :
 def getGls (cfg : Cfg) (md : Int) (t : GTree) (pat : List (Nat × Int)) : Option Story :=
   pickFinal cfg (glsCandidates cfg md t pat)
 
+/-! ### the candidate generation of `PhyBo._get_GLS` (restriction and internal weighted mode)
+
+Same bottom-up scheme; differences to `get_gls`: in the mixed case a child in state -1 receives an
+event as well (a gain in the scenario with an absent parent, a loss in the one with a present
+parent), the case split has the shipped order, and instead of per-state minimum-weight pruning the
+candidates are filtered by a restriction value.  Filters only remove candidates, so the model keeps
+them all: the real scenario must be *one of* these root scenarios. -/
+
+def relabel (v : Int) (combo : List Cand) : List Cand :=
+  combo.map fun c => if c.1 == -1 then (v, c.2) else c
+
+def combineR (names : List Nat) (combo : List Cand) : List Cand :=
+  let states := combo.map (·.1)
+  let stories : Story := combo.flatMap (·.2)
+  let s1 := count (1 : Int) states
+  let s0 := count (0 : Int) states
+  let sM := count (-1 : Int) states
+  let sL := states.length
+  if s1 + sM == sL then [(1, stories)]
+  else if s0 + sM == sL then [(0, stories)]
+  else if sM == sL then [(-1, stories)]
+  else
+    let zsA := names.zip ((relabel 1 combo).map (·.1))
+    let zsB := names.zip ((relabel 0 combo).map (·.1))
+    [(0, stories ++ (zsA.filter (·.2 == 1)).map fun p => (p.1, (1 : Int))),
+     (1, stories ++ (zsB.filter (·.2 == 0)).map fun p => (p.1, (0 : Int)))]
+
+mutual
+def candsR (pat : Nat → Int) : GTree → List Cand
+  | .leaf n => [(pat n, [])]
+  | .node _ cs => (product (candsRL pat cs)).flatMap (combineR (cs.map GTree.name))
+def candsRL (pat : Nat → Int) : List GTree → List (List Cand)
+  | [] => []
+  | t :: ts => candsR pat t :: candsRL pat ts
+end
+
+/-- root scenarios: `[(tree.Name, 1)] + story` for a present root -/
+def rootCandsR (pat : Nat → Int) (t : GTree) : List Story :=
+  (candsR pat t).map fun c => if c.1 == 1 then (t.name, (1 : Int)) :: c.2 else c.2
+
+/-- everything `_get_GLS` may return for a pattern: the early single-origin return, or one of the root
+scenarios of the common ancestor of the presences -/
+def glsRCandidates (md : Int) (t : GTree) (pat : List (Nat × Int)) : List Story :=
+  let pf := patOf md pat
+  let presents := (leafNames t).filter fun n => pf n == 1
+  let sub := lcaSub presents (size t) t
+  if (leafNames sub).all fun n => pf n == 1 then [[(sub.name, (1 : Int))]]
+  else rootCandsR pf sub
+
 end Verif.GL
